@@ -132,6 +132,9 @@ class FakeWriter:
         return self.closed
 
     async def wait_closed(self):
+        # a real transport reports connection_lost in a later loop iteration than close(): wait_closed() suspends at least once
+        # (seeded C14-i needs close() to run inside that window); the script may make the peer slow to acknowledge ("close_delay")
+        await asyncio.sleep(self.script.get("close_delay", 0))
         # asyncio.StreamWriter.wait_closed re-raises the exception the connection was lost with
         if self.death is not None:
             raise self.death
